@@ -96,6 +96,30 @@ class Engine(DbEngine):
         # keep reading back, by the offset their store returned, as the bytes submitted
         import eng_c04
         out += eng_c04.failed_growth_cases(rng, tier, cls="spare-chunks", reopen_after_failure=0.5, n=(10 if tier == "quick" else 200))
+        # a store created over an event.map that exists already, zero-filled and several chunks long: the file length the store
+        # remembers and the length of the file and of the mapping must agree from the start, or the first growth step after
+        # the preallocated space is used up cuts the file; events are stored until well beyond that point, every offset
+        # returned so far re-read after every store
+        from dbgen import AUTHORS, fake_id
+        for i in range(6 if tier == "quick" else 100):
+            sub = random.Random(rng.getrandbits(64))
+            g = HistGen(sub, {"new": 1}, 0).run()
+            obs = "obs %s L0" % C.tl(C.tb(i_) for i_ in g.ids)
+            chunks = sub.choice([1, 2, 3, 5, 8])
+            size = 2048 * chunks + sub.choice([0, 0, 8, 1000])
+            ops = ["prealloc " + C.tn(size)]
+            total = 0
+            while total < size + 3 * 2048:
+                n = sub.choice([100, 300, 900, 1500])
+                e = g.new_event(kind=1, pk=sub.choice(AUTHORS), tags=[])
+                e["content"] = b"p" * n
+                e["id"] = fake_id(e)
+                ops.append("store " + C.t_event(e))
+                total += n + 150
+            if sub.random() < 0.5:
+                ops.append("reopen")
+            line = "dbhist " + C.tl(C.tb(n_) for n_ in g.names) + " ; " + obs + "".join(" ; " + x + " ; " + obs for x in ops)
+            out.append(("preallocated-map", line))
         return out
 
     def skip_model(self, gcls):
@@ -105,7 +129,7 @@ class Engine(DbEngine):
         return line
 
     def judge(self, gcls, line, model_out, impl_outs):
-        if gcls == "spare-chunks":
+        if gcls in ("spare-chunks", "preallocated-map"):
             import eng_c04
             v = eng_c04.judge_failed_growth(("debug",), line, impl_outs)
             if not v.oracle_ok and v.cls == "readback-differs":
